@@ -140,6 +140,26 @@ theorem link_get_components_model (ir : CompIR) (hok : compOk ir = true) (A : AM
   rw [link_get_components ir hok, getComponents]
   by_cases hs : isSymm A = true <;> simp [hs]
 
+/-- **Link, `number_of_components`.**  With the extracted `get_components` as the callee, the routine returns
+`Comp.numberOfComponents A` (the length of the size list), and raises `BCTParamError` exactly when the model fails. -/
+theorem link_number_of_components (ir : NumIR) (hok : numOk ir = true) (gc : CompIR) (hgc : compOk gc = true) (A : AMat ℤ n) :
+    runNum ir gc A = match numberOfComponents A with
+      | .ok k => .ok k
+      | .error _ => .error "BCTParamError" := by
+  have hir : ir = refNum := by simpa [numOk] using hok
+  subst hir
+  have hc : (refNum.arg = refNum.param ∧ refNum.lenOf = refNum.sizes ∧ refNum.discard ≠ refNum.sizes ∧ refNum.callee = "get_components") := by
+    decide
+  simp only [runNum, if_pos hc, link_get_components gc hgc A, numberOfComponents, getComponents]
+  by_cases hs : isSymm A = true
+  · simp [hs, Except.map]
+  · have hs' : isSymm A = false := by simpa using hs
+    simp [hs', Except.map]
+
+example : numOk refNum = true := by decide
+/-- counting the labels instead of the sizes is rejected -/
+example : numOk { refNum with lenOf := "_" } = false := by decide
+
 example : compOk refIR = true := by decide
 /-- `s.union(item)` assigned to the wrong name is rejected -/
 example : compOk { refIR with body :=
